@@ -2408,7 +2408,8 @@ def preprocess_file(
                         def_value = line[match.end(0) + eq_ind : -1].strip()
                         def_cont_name = def_name
                     else:
-                        def_value = line[match.end(0) + eq_ind :].strip()
+                        # Blanks after the name are not a value
+                        def_value = line[match.end(0) + eq_ind :].strip() or "True"
                 else:
                     def_value = "True"
 
